@@ -84,6 +84,12 @@ def generate(config="default", repo=REPO, outdir=None):
     if all(os.path.exists(os.path.join(outdir, f)) for f in REQUIRED) and os.path.exists(
         os.path.join(outdir, "DONE")
     ):
+        # mark the cache entry as in use: pruning (by a parallel run) only removes entries untouched for 30 minutes
+        for d_ in (outdir, os.path.dirname(outdir)):
+            try:
+                os.utime(d_, None)
+            except OSError:
+                pass
         return outdir
     os.makedirs(outdir, exist_ok=True)
     lock = os.path.join(outdir, ".lock")
